@@ -229,7 +229,7 @@ func TestEveryConstructIndividually(t *testing.T) {
 		// and under each quantifier form, which must repeat the whole set
 		for f := 0; f <= 5; f++ {
 			q := &ref.Pat{K: "q", Subs: []*ref.Pat{p}}
-			if p.K == "cat" {
+			if p.K == "cat" || p.K == "alt" || p.K == "q" {
 				q.Subs[0] = &ref.Pat{K: "grp", Subs: []*ref.Pat{p}}
 			}
 			gen.Quant(q, f, 1, 1)
